@@ -9,16 +9,22 @@ def _vec(h, dim):
     return h.list_real('x') if dim is None else h.vec('x', dim)
 
 
-def _and(h, n, dim, maxiter, inplace=False):
+def _and(h, n, dim, maxiter, inplace=False, earlier_call=False):
     # members: deterministic vector maps, pure (fresh result) or in place (result written into the argument)
     cs = [h.fn('c%d' % i, ret='same', inplace=inplace) for i in range(n)]
     onexit = h.fn('ONEXIT', ret='same', log='exit')
     onfail = h.fn('ONFAIL', ret='same', log='fail')
     cf = h.call(h.get(K + 'and_'), *cs, maxiter=maxiter, onexit=onexit, onfail=onfail)
+    n_ex = n_fl = 0
+    if earlier_call:
+        # the combinator is an object that is called again and again (every trial point of a solver): the clauses hold for
+        # each call, whatever an earlier call on another vector went through
+        h.call(cf, h.vec('earlier_x', dim or 1))
+        n_ex, n_fl = len(h.log('exit')), len(h.log('fail'))
     x = _vec(h, dim)
     x0 = h.snapshot(x)
     r = h.call(cf, x)
-    ex, fl = h.log('exit'), h.log('fail')
+    ex, fl = h.log('exit')[n_ex:], h.log('fail')[n_fl:]
     h.check('exactly-one-of-success-or-failure-path', 'len(ex) + len(fl) == 1', ex=ex, fl=fl)
     h.check('input-not-modified', 'seq_eq(x, x0)', x=x, x0=x0)
     if len(ex) == 1:
@@ -33,6 +39,10 @@ for _n, _d, _m in [(2, None, 1), (2, 1, 2)]:
     contract('C17/constraints.and_/in-place-members,n=%d,dim=%s,maxiter=%d' % (_n, _d or 'any', _m), ['C17', 'C03'],
              K + 'and_._constraint')(lambda h, n=_n, d=_d, m=_m: _and(h, n, d, m, inplace=True))
 contract('C17/constraints.and_/n=3,dim=1,maxiter=2', ['C17'], K + 'and_._constraint')(lambda h: _and(h, 3, 1, 2))
+contract('C17/constraints.and_/called-again,n=3,dim=1,maxiter=2', ['C17'], K + 'and_._constraint', native=False)(
+    lambda h: _and(h, 3, 1, 2, earlier_call=True) if h.is_sym() else h.unsupported('symbolic only'))
+contract('C17/constraints.and_/called-again,n=2,dim=1,maxiter=2', ['C17', 'C03'], K + 'and_._constraint', native=False)(
+    lambda h: _and(h, 2, 1, 2, earlier_call=True) if h.is_sym() else h.unsupported('symbolic only'))
 
 
 def _or(h, n, dim, maxiter, inplace=False):
